@@ -331,8 +331,8 @@ func c13Funcs() vuego.FuncMap {
 func c13Observe(ctx *core.Ctx, pos, expr string) (string, error) {
 	q := `"`
 	if strings.Contains(expr, `"`) {
-		if strings.Contains(expr, "'") {
-			return "", fmt.Errorf("unquotable")
+		if strings.Contains(expr, "'") && pos != "mustache" {
+			return "", fmt.Errorf("unquotable") // cannot be written inside an attribute value
 		}
 		q = `'`
 	}
@@ -434,7 +434,7 @@ func (c *c13Case) Run(ctx *core.Ctx) {
 			}
 			obs[pos] = got
 			shape := c.Shape
-			if c.Part == "pipe" && strings.HasPrefix(shape, "pipe:") && (pos == "vif" || pos == "velseif" || pos == "vshow") {
+			if c.Part == "pipe" && (strings.HasPrefix(shape, "pipe:") || strings.HasPrefix(shape, "literal-arg:")) && (pos == "vif" || pos == "velseif" || pos == "vshow") {
 				shape = "filter-chain-in-condition"
 			}
 			if exp := c13Expected(pos, want); got != exp {
@@ -550,7 +550,7 @@ func init() {
 		ID:    "C13",
 		Level: "exploration",
 		Rule: "expression part: all type-correct expression trees up to the bound over 21 leaves (paths into ints/floats/strings/bools/nested maps/slices/struct, undefined, literals in both quote styles) and 15 binary operators, !, ?: and parentheses (spaced and unspaced variants), each observed in 5 positions ({{ }}, :attr, v-if, v-else-if, v-show) against a reference evaluator; " +
-			"pipe part: every chain up to the bound over 19 filter stages (built-ins and registered functions with int/float/string/bool/variadic/context parameters, arguments as literals in both quote styles, numbers, variables) from 6 initial values against direct application of the Go functions; error part: unknown function, wrong arity, impossible conversion, function error in 4 positions must fail naming the function. non-trivial = all",
+			"pipe part: every chain up to the bound over 19 filter stages (built-ins and registered functions with int/float/string/bool/variadic/context parameters, arguments as literals in both quote styles, numbers, variables) from 6 initial values, plus every string literal argument of <=3 tokens over {letter, the other quote character, space, comma, parentheses, pipe, dash, dot, colon} in both quote styles against direct application of the Go functions; error part: unknown function, wrong arity, impossible conversion, function error in 4 positions must fail naming the function. non-trivial = all",
 		Bounds:      map[string]string{"quick": "expression depth <= 2 (one compound operand), pipe chains of length <= 2", "thorough": "expression depth <= 2, pipe chains of length <= 3"},
 		Assumptions: []string{"only exact integer divisions, same-type equalities and bool operands of && || are generated (conventions differ elsewhere)", "string form of float arithmetic is unconstrained", "int->float/float->int parameter conversions are unconstrained"},
 		Decode:      core.DecodeAs[c13Case](),
@@ -598,6 +598,30 @@ func init() {
 			for _, in := range inits {
 				rec(in.Src, in.V, 0, "")
 			}
+			// literal arguments: every content string up to 3 tokens, in both quote styles
+			litTok := []string{"a", "Q", " ", ",", ")", "(", "|", "-", ".", ":"}
+			tokenStrings(litTok, 3, func(tok []int) {
+				for _, q := range []string{`"`, `'`} {
+					other := `'`
+					if q == `'` {
+						other = `"`
+					}
+					content := strings.ReplaceAll(joinTokens(litTok, tok), "Q", other)
+					cls := "plain"
+					switch {
+					case strings.Contains(content, other):
+						cls = "other-quote"
+					case strings.ContainsAny(content, ",()|"):
+						cls = "syntax-char"
+					case strings.Contains(content, " "):
+						cls = "space"
+					}
+					emit(&c13Case{Part: "pipe", Expr: "s | prefix(" + q + content + q + ")", Shape: "literal-arg:" + cls, Want: c13V{T: "string", S: content + "str"}.canon()})
+					if len(tok) <= 2 {
+						emit(&c13Case{Part: "pipe", Expr: "zz | default(" + q + content + q + ") | shout", Shape: "literal-arg:" + cls, Want: c13V{T: "string", S: strings.ToUpper(content) + "!"}.canon()})
+					}
+				}
+			})
 			// function-call syntax
 			emit(&c13Case{Part: "pipe", Expr: "double(n)", Shape: "call", Want: "int:10"})
 			emit(&c13Case{Part: "pipe", Expr: "len(s)", Shape: "call", Want: "int:3"})
